@@ -828,15 +828,33 @@ package core
 //@   loop 3 invariant ghost(nodeloads)[self] >= old(ghost(nodeloads)[self])
 
 // ---------------------------------------------------------------- C15 only the holder of the pipestance lock releases it
-// Ghost: pslock[ps] == 1 while this process holds ps's _lock.  Lock takes it only when it
-// succeeds; Unlock may be called only by the holder; a failed read-write instantiation
-// (e.g. PipestanceLockedError) leaves the lock of the live mrp alone.
-//@ func core.Pipestance.Lock property C15
+// Ghost: pslock[ps] == 1 once this process has registered pipestance ps with the signal
+// handler, which Pipestance.Lock does exactly when it goes on to write the _lock file (the
+// registration is the event).  Lock looks for an existing _lock only after re-reading the
+// metadata directory (cacheloads counts loadCache calls), takes the lock only when it
+// succeeds, and a refused attempt changes nothing; Unlock may be called only by the holder;
+// a failed read-write instantiation leaves the lock of the live mrp alone.
+//@ func util.RegisterSignalHandler property C15
 //@   trusted
 //@   modifies ghost(pslock)
-//@   ensures isnil(result) ==> ghost(pslock)[self] == 1
-//@   ensures !isnil(result) ==> ghost(pslock)[self] == old(ghost(pslock)[self])
-//@   ensures forall p *core.Pipestance :: p != self ==> ghost(pslock)[p] == old(ghost(pslock)[p])
+//@   ensures ghost(pslock)[as(object, ptr_core.Pipestance)] == 1
+//@   ensures forall p *core.Pipestance :: p != as(object, ptr_core.Pipestance) ==> ghost(pslock)[p] == old(ghost(pslock)[p])
+
+//@ func core.Metadata.loadCache property C15
+//@   trusted
+//@   modifies mapof(self.contents), mapof(self.readCache), held(self.mutex), ghost(cacheloads)
+//@   ensures ghost(cacheloads)[self] == old(ghost(cacheloads)[self]) + 1
+//@   ensures forall m *core.Metadata :: m != self ==> ghost(cacheloads)[m] == old(ghost(cacheloads)[m])
+
+//@ func core.Metadata.exists property C15
+//@   trusted
+//@   pure
+
+//@ func core.Pipestance.Lock property C15
+//@   ensures @taken isnil(result) ==> ghost(pslock)[self] == 1
+//@   ensures @refused !isnil(result) ==> ghost(pslock) == old(ghost(pslock))
+//@   ensures @others forall p *core.Pipestance :: p != self ==> ghost(pslock)[p] == old(ghost(pslock)[p])
+//@   ensures @freshlook ghost(cacheloads)[self.metadata] > old(ghost(cacheloads)[self.metadata])
 
 //@ func core.Pipestance.Unlock property C15
 //@   trusted
